@@ -61,6 +61,7 @@ class MemTransport(asyncio.Transport):
         self._writing_paused = False
         self.hold = False  # fault injection: stop delivering our writes (peer stalls / black hole)
         self.total_written = 0
+        self.sent = bytearray()  # everything ever written (for oracles that look at the raw wire)
         self.total_delivered = 0
         self.write_calls = 0
         self.on_deliver: Callable[[bytes], None] | None = None
@@ -119,6 +120,7 @@ class MemTransport(asyncio.Transport):
         if not data:
             return
         self.out += data
+        self.sent += data
         self.total_written += len(data)
         self._ev("write", n=len(data))
         self._schedule_pump()
